@@ -4,7 +4,7 @@
    argsort / sort put the phases in exact order up to 2^-50 cycles. *)
 From Coq Require Import ZArith Reals Psatz Floats Bool List Lia Sorting.Permutation Sorting.Sorted.
 From Flocq Require Import Core BinarySingleNaN PrimFloat.
-From PB Require Import Proofs.TwoSumExact Model.Phase2 Model.PhaseOrd Proofs.Floor Proofs.DayFrac Proofs.DayFrac3 Proofs.PhaseAdd Proofs.PhaseMore
+From PB Require Import Proofs.TwoSumExact Model.Phase2 Model.PhaseOrd Proofs.Floor Proofs.DayFrac Proofs.DayFrac3 Proofs.DayFracTail Proofs.FoldHalf Proofs.DayFracFold Proofs.PhaseAdd Proofs.PhaseMore
   Proofs.PhaseCmpAll Proofs.DivChain Proofs.PhaseArgmin Proofs.PhaseSort.
 Import ListNotations.
 Open Scope R_scope.
@@ -20,7 +20,7 @@ Theorem phase_sub_sound_wide (i1 f1 i2 f2 : PrimFloat.float) (k1 k2 : Z) :
   let '(d, f) := phase_sub i1 f1 i2 f2 in
   fin d /\ fin f /\ (exists k : Z, R_of d = IZR k) /\
   Rabs (R_of d + R_of f - ((R_of i1 + R_of f1) - (R_of i2 + R_of f2))) <= bpow radix2 (-52) /\
-  Rabs (R_of f) <= / 2 + bpow radix2 (-50).
+  Rabs (R_of f) <= / 2.
 Proof.
   intros Fi1 Ff1 Fi2 Ff2 E1 E2 K1 K2 B1 B2. unfold phase_sub. pose proof p50_half as P50.
   assert (P51 : bpow radix2 52 = IZR (2 ^ 52)) by (simpl; lra).
@@ -115,7 +115,7 @@ Proof.
     assert (IZR kc < IZR (2 ^ 51 - 2) + 1) by (rewrite minus_IZR; lra).
     assert (- (IZR (2 ^ 51 - 2) + 1) < IZR kc) by (rewrite minus_IZR; lra).
     rewrite <- plus_IZR in *. rewrite <- opp_IZR in *. apply lt_IZR in H. apply lt_IZR in H0. lia. }
-  pose proof (phase_sub_sound_wide (p_int p) (p_frac p) ic fc k kc Fi Ff Fic Ffc Ek Ekc ltac:(lia) Kc Bf Hfc) as HS.
+  pose proof (phase_sub_sound_wide (p_int p) (p_frac p) ic fc k kc Fi Ff Fic Ffc Ek Ekc ltac:(lia) Kc Bf (half_slack _ Hfc)) as HS.
   destruct (phase_sub (p_int p) (p_frac p) ic fc) as [d g]. destruct HS as (Fd & Fg & (kd & Ekd) & Hsub & Hg).
   unfold cycle. cbn [p_int p_frac].
   (* d + g is small *)
